@@ -1,59 +1,7 @@
-import Prom.Props.C07
-/-
-C14 — A gathered family never mixes metric types.
+import Prom.Lemmas.C14Aux
 
-The full statement is FALSE of the code (known finding K2): neither the descriptor id nor the
-dimension hash mentions the metric type, so a counter m{k="1"} and a gauge m{k="2"} with the same
-help are both admitted, end up in one family, and the family's declared type is the type of
-whichever collector the hash map yields first. `C14_full_false` proves this on the model with the
-concrete witness (replayed on the real code by the `reg` corpus); `homogeneous_partial` is the
-property under the hypothesis that collectors sharing a name have the same kind.
--/
 namespace Prom.C14
 open Prom
-
-/-- collectors that share a name have the same kind, and every collected sample carries a value of
-    its family's type (true for every library collector) -/
-def Homogeneous (collected : List Family) : Prop :=
-  (∀ f ∈ collected, ∀ s ∈ f.samples, s.val.kind = f.ty) ∧
-  (∀ f ∈ collected, ∀ g ∈ collected, f.samples ≠ [] → g.samples ≠ [] → f.name = g.name → f.ty = g.ty)
-
-/-- invariant of the merge phase -/
-def MInv (all acc : List Family) : Prop :=
-  ∀ g ∈ acc, (∀ s ∈ g.samples, s.val.kind = g.ty) ∧
-    ∀ f ∈ all, f.samples ≠ [] → f.name = g.name → f.ty = g.ty
-
-theorem merged_inv_aux (all : List Family) (hh : Homogeneous all) : ∀ (rest acc : List Family),
-    (∀ f ∈ rest, f ∈ all) → MInv all acc →
-    MInv all (rest.foldl (fun acc f => if f.samples.isEmpty then acc else famInsert f acc) acc) := by
-  intro rest
-  induction rest with
-  | nil => intro acc _ h; simpa using h
-  | cons f r ih =>
-    intro acc hsub hinv
-    simp only [List.foldl_cons]
-    have hf : f ∈ all := hsub f (by simp)
-    have hr : ∀ x ∈ r, x ∈ all := fun x hx => hsub x (by simp [hx])
-    split
-    · exact ih acc hr hinv
-    · rename_i hne
-      have hne' : f.samples ≠ [] := by simpa using hne
-      apply ih _ hr
-      intro g hg
-      rcases famInsert_mem f acc g hg with rfl | hg | ⟨g0, hg0, hn, rfl⟩
-      · exact ⟨hh.1 g hf, fun f' hf' hne2 hn2 => hh.2 f' hf' g hf hne2 hne' hn2⟩
-      · exact hinv g hg
-      · obtain ⟨h1, h2⟩ := hinv g0 hg0
-        refine ⟨?_, h2⟩
-        intro s hs
-        simp only [List.mem_append] at hs
-        rcases hs with hs | hs
-        · exact h1 s hs
-        · have : f.ty = g0.ty := h2 f hf hne' hn.symm
-          simp only []
-          rw [← this]
-          exact hh.1 f hf s hs
-
 /-- **homogeneous_partial** — if the collectors registered under each name are of one kind, every
     sample of every gathered family carries a value of the family's declared type (so the encoders
     print each sample's real value), for every iteration order of the collectors. -/
